@@ -239,6 +239,14 @@ Definition lex_step (st : lstate) (l : lexer) : lexout :=
             match l_backup l1 with
             | None => LRaise ESyntax (l_pos l1)
             | Some l2 =>
+              (* func_match = RE_FUNCTION_NAME.match(query, pos); followed by "(" ? *)
+              let '(b0, a0) := l_accept_match RE_FUNCTION_NAME l2 in
+              if b0 && ceq (l_peek a0) 40 then
+                let l3 := set_stacks a0 (l_fdepth a0) (l_ffd a0) (1 :: l_fcs a0) (l_bs a0) in
+                let l4 := l_emit T_FUNCTION l3 in
+                let l5 := push_bracket 40 (l_pos l4) l4 in
+                LNext SFilter (l_ignore (snd (l_next l5)))
+              else
               let '(b1, a1) := l_accept [38; 38]%N l2 in if b1 then LNext SFilter (l_emit T_AND a1) else
               let '(b2, a2) := l_accept [124; 124]%N l2 in if b2 then LNext SFilter (l_emit T_OR a2) else
               let '(b3, a3) := l_accept s_true l2 in if b3 then LNext SFilter (l_emit T_TRUE a3) else
@@ -246,13 +254,7 @@ Definition lex_step (st : lstate) (l : lexer) : lexout :=
               let '(b5, a5) := l_accept s_null l2 in if b5 then LNext SFilter (l_emit T_NULL a5) else
               let '(b6, a6) := l_accept_match RE_FLOAT l2 in if b6 then LNext SFilter (l_emit T_FLOAT a6) else
               let '(b7, a7) := l_accept_match RE_INT l2 in if b7 then LNext SFilter (l_emit T_INT a7) else
-              let '(b8, a8) := l_accept_match RE_FUNCTION_NAME l2 in
-              if b8 && ceq (l_peek a8) 40 then
-                let l3 := set_stacks a8 (l_fdepth a8) (l_ffd a8) (1 :: l_fcs a8) (l_bs a8) in
-                let l4 := l_emit T_FUNCTION l3 in
-                let l5 := push_bracket 40 (l_pos l4) l4 in
-                LNext SFilter (l_ignore (snd (l_next l5)))
-              else l_error a8
+              l_error l2
             end
         end
       end
